@@ -10,7 +10,7 @@ open Grcov Grcov.UPath Grcov.Glob AList
 /-! ### the lookup is the identity -/
 
 theorem rewriteKeyJ_eq_of_id {cfg : Cfg} {fs : FS} {nd : Bool} {ftp : List (Bytes × List Bytes)}
-    {kc : Bytes × Cov} (h : partialStep nd ftp (keyPath cfg kc.1) = keyPath cfg kc.1) :
+    {kc : Bytes × Cov} (h : partialStepF fs cfg.sourceDir nd ftp (keyPath cfg kc.1) = keyPath cfg kc.1) :
     rewriteKeyJ cfg fs nd ftp kc = rewriteKey cfg fs kc := by
   have hr : resolveKeyJ cfg fs nd ftp kc.1 = resolveKey cfg fs kc.1 := by
     unfold resolveKeyJ resolveKey; rw [h]
@@ -25,8 +25,8 @@ every key's own path (a generalisation of `rewritePathsJ_eq_rewritePaths`: the l
 switched on and find candidates, as long as each path is mapped to itself) -/
 theorem rewritePathsJ_eq_of_lookup_id (cfg : Cfg) (fs : FS) (ord : List (List Bytes))
     (m : List (Bytes × Cov)) (hw : walkPanics cfg fs (m.map (·.1)) = false)
-    (h : ∀ kc ∈ m, partialStep (needed cfg fs (m.map (·.1))) (fileToPaths fs ord cfg (m.map (·.1)))
-      (keyPath cfg kc.1) = keyPath cfg kc.1) :
+    (h : ∀ kc ∈ m, partialStepF fs cfg.sourceDir (needed cfg fs (m.map (·.1)))
+      (fileToPaths fs ord cfg (m.map (·.1))) (keyPath cfg kc.1) = keyPath cfg kc.1) :
     rewritePathsJ cfg fs ord m = rewritePaths cfg fs m := by
   have hmap : m.map (rewriteKeyJ cfg fs (needed cfg fs (m.map (·.1))) (fileToPaths fs ord cfg (m.map (·.1))))
       = m.map (rewriteKey cfg fs) :=
@@ -63,6 +63,30 @@ theorem exists_canonical_key {cfg : Cfg} {fs : FS} {sn names : List Bytes}
     · simp only [hP, removePrefix, stripPrefix_render hsn hn]
       exact push_render hsn hn hne
   rw [hK]; simp [FS.exists, hres]
+
+/-- the canonical key of an existing file below a clean source dir NAMES A FILE below it after
+prefix removal (prefix absent or equal to the source dir): since fix fdef150 the partial-path lookup
+leaves it alone -/
+theorem namesFile_canonical_key {cfg : Cfg} {fs : FS} {sn names : List Bytes}
+    (hS : cfg.sourceDir = some (render ⟨true, sn⟩)) (hM : cfg.mapping = none)
+    (hP : cfg.prefixDir = none ∨ cfg.prefixDir = some (render ⟨true, sn⟩))
+    (hsn : ∀ n ∈ sn, RealName n ∧ 92 ∉ n) (hn : ∀ n ∈ names, RealName n ∧ 92 ∉ n) (hne : names ≠ [])
+    (hres : fs.resolve (render ⟨true, sn ++ names⟩) = some (sn ++ names, .file)) :
+    namesFile fs cfg.sourceDir (keyPath cfg (render ⟨true, sn ++ names⟩)) = true := by
+  have hsn1 : ∀ n ∈ sn, RealName n := fun n h => (hsn n h).1
+  have hn1 : ∀ n ∈ names, RealName n := fun n h => (hn n h).1
+  have hall2 : ∀ n ∈ sn ++ names, 92 ∉ n := by
+    intro n h; rcases List.mem_append.1 h with h | h
+    · exact (hsn n h).2
+    · exact (hn n h).2
+  have hb : bsl (render ⟨true, sn ++ names⟩) = render ⟨true, sn ++ names⟩ :=
+    bsl_id (noBackslash_render (np := ⟨true, sn ++ names⟩) hall2)
+  have hK : push (render ⟨true, sn⟩) (keyPath cfg (render ⟨true, sn ++ names⟩)) = render ⟨true, sn ++ names⟩ := by
+    rcases hP with hP | hP
+    · simp [keyPath, hP, hM, applyMapping, hb, removePrefix, push, hasRoot_render_true]
+    · simp only [keyPath, hP, hM, applyMapping, hb, removePrefix, stripPrefix_render hsn1 hn1]
+      exact push_render hsn1 hn1 hne
+  simp [namesFile, hS, hK, FS.isFile, hres]
 
 /-! ### `add_results` when a canonical path need not be UTF-8 -/
 
